@@ -33,6 +33,7 @@ import CookModel.Lemmas.DiagEventKinds
 import CookModel.Lemmas.DiagPlaceDocQty
 import CookModel.Lemmas.DiagPlaceName
 import CookModel.Lemmas.DiagPlaceDocMore
+import CookModel.Lemmas.DiagPlaceInter
 /-
   C07  Diagnostics are sound, complete and placed on the offending construct.
 
@@ -4037,5 +4038,74 @@ example : ((parseRecipe (α := Rat) C07_coreEnv ">> source: grandma\n\nUse @x{5%
       (fun d => d.stage == .parse),
     (parseRecipe (α := Rat) C07_coreEnv ">> source: grandma\n\nUse @x{5%} now\n".toList).output.isSome) =
     ([⟨.warning, .parse, "empty-unit", [⟨28, 29⟩]⟩], true) := by decide +kernel
+
+/-! ### Intermediate-reference syntax errors as placement pieces (wave 9)
+
+  `PlShapeI` (Lemmas/DiagPlaceInter.lean): the shape of a braces component whose modifier tokens are
+  `pre & ( inner ) post`, with its own cut lemma `c07i_cut` (from `rti_modifiersP`). -/
+
+/-- the ingredient event of `@&( inner )name{}` planted after `A` in `T`: `&` flag, no intermediate data -/
+def C07_interIngr (T A : List Tok) (tm tand top : Tok) (inner : List Tok) (tcp : Tok) (nameT : List Tok) (tob : Tok)
+    (Q : List Tok) (tcb : Tok) : Ev α :=
+  .ingredient ⟨⟨⟨Modifiers.empty.insert Modifiers.REF, tokensSpan (tand :: top :: (inner ++ [tcp]))⟩, none,
+      buildText (offAt T (A.length + 1 + (c07i_mods [] tand top inner tcp []).length)) nameT, none, none, none⟩,
+    ⟨offAt T A.length,
+     offAt T (A.length + (c07p_comp tm (c07i_mods [] tand top inner tcp []) nameT tob Q tcb).length)⟩⟩
+
+/-- **The intermediate-reference syntax errors, wherever the ingredient stands** (`@&()x{}`, `@&(~=1)x{}`,
+    `@&(99999)x{}`, `@&(-1)x{}`, `@&(x)y{}`; COMPONENT_MODIFIERS and INTERMEDIATE_PREPARATIONS on).  An ingredient
+    with modifier tokens exactly `&` `(` inner `)` (`inner` without `)`), a non-blank name without alias separator,
+    blank braces, not followed by `(`, anywhere in a step block (`PlPieceAt`: from every state at its position, one
+    iteration of the step loop).  `f` = the non-blank tokens of `inner`.  The iteration pushes EXACTLY one error
+    (error, parse) and then the ingredient with the `&` flag and no intermediate data on the byte range of the
+    construct:
+    * generic: whatever event `ev` the data reader pushes on rejecting the group;
+    * `f = []` ⇒ `inter-ref-empty` (the group); `f = [~, =, int]` ⇒ `inter-ref-wrong-order` (the `~` and the `=`);
+      `f = [int]` above 32767 ⇒ `int-parse` (the number); `f = [±, int]` ⇒ `inter-ref-sign` (the sign);
+      `f = [x]`, `x` not an integer ⇒ `inter-ref-invalid` (the span of `inner`).
+    PARTIAL: ingredient with the group ALONE and no quantity only (the exact tail `ingredientTail_interref_err`);
+    missing: plain modifiers around the group (the cut `c07i_cut` covers them, the tail does not), a quantity, and
+    `inter-ref-not-allowed:cookware` (the cookware tail lemma `cookwareTail_inter` is membership only). -/
+theorem C07_planted_inter_ref_family_partial (T A rest : List Tok) (cs : CharSpec) (e : Ext) (hw : WF T)
+    (tm tand top : Tok) (inner : List Tok) (tcp : Tok) (nameT : List Tok) (tob : Tok) (Q : List Tok) (tcb : Tok)
+    (hT : T = A ++ (c07p_comp tm (c07i_mods [] tand top inner tcp []) nameT tob Q tcb ++ rest))
+    (sh : PlShapeI e .at tm [] tand top inner tcp [] nameT tob Q tcb rest)
+    (hQ : ∀ t ∈ Q, isPadK t = true)
+    (ha : e.has Gen.EXT_COMPONENT_ALIAS = false ∨ ∀ t ∈ nameT, t.kind ≠ .or)
+    (hname : (buildText (offAt T (A.length + 1 + (c07i_mods [] tand top inner tcp []).length)) nameT).isTextEmpty cs
+      = false) :
+    (∀ ev : Ev α, (∀ s0 : BP α, parseInterRef (α := α) (top :: (inner ++ tcp :: [])) s0 =
+        ((none, []), { s0 with evs := s0.evs.push ev })) →
+      PlPieceAt (α := α) T cs e A ⟨c07p_comp tm (c07i_mods [] tand top inner tcp []) nameT tob Q tcb, fun evs =>
+        evs = [ev, C07_interIngr T A tm tand top inner tcp nameT tob Q tcb]⟩) ∧
+    (inner.filter nonBlankTok = [] →
+      PlPieceAt (α := α) T cs e A ⟨c07p_comp tm (c07i_mods [] tand top inner tcp []) nameT tob Q tcb, fun evs =>
+        evs = [.error ⟨.error, .parse, "inter-ref-empty", [tokensSpan (top :: (inner ++ [tcp]))]⟩,
+          C07_interIngr T A tm tand top inner tcp nameT tob Q tcb]⟩) ∧
+    (∀ a b i, inner.filter nonBlankTok = [a, b, i] → a.kind = .tilde → b.kind = .eq → i.kind = .int →
+      PlPieceAt (α := α) T cs e A ⟨c07p_comp tm (c07i_mods [] tand top inner tcp []) nameT tob Q tcb, fun evs =>
+        evs = [.error ⟨.error, .parse, "inter-ref-wrong-order", [⟨a.start, a.stop⟩, ⟨b.start, b.stop⟩]⟩,
+          C07_interIngr T A tm tand top inner tcp nameT tob Q tcb]⟩) ∧
+    (∀ i, inner.filter nonBlankTok = [i] → i.kind = .int → 32767 < digitsToNat i.text →
+      PlPieceAt (α := α) T cs e A ⟨c07p_comp tm (c07i_mods [] tand top inner tcp []) nameT tob Q tcb, fun evs =>
+        evs = [.error ⟨.error, .parse, "int-parse", [⟨i.start, i.stop⟩]⟩,
+          C07_interIngr T A tm tand top inner tcp nameT tob Q tcb]⟩) ∧
+    (∀ sg i, inner.filter nonBlankTok = [sg, i] → (sg.kind = .minus ∨ sg.kind = .plus) → i.kind = .int →
+      PlPieceAt (α := α) T cs e A ⟨c07p_comp tm (c07i_mods [] tand top inner tcp []) nameT tob Q tcb, fun evs =>
+        evs = [.error ⟨.error, .parse, "inter-ref-sign", [⟨sg.start, sg.stop⟩]⟩,
+          C07_interIngr T A tm tand top inner tcp nameT tob Q tcb]⟩) ∧
+    (∀ x, inner.filter nonBlankTok = [x] → x.kind ≠ .int →
+      PlPieceAt (α := α) T cs e A ⟨c07p_comp tm (c07i_mods [] tand top inner tcp []) nameT tob Q tcb, fun evs =>
+        evs = [.error ⟨.error, .parse, "inter-ref-invalid", [tokensSpan inner]⟩,
+          C07_interIngr T A tm tand top inner tcp nameT tob Q tcb]⟩) := by
+  have g := c07i_ingredient_inter_piece (α := α) T A rest cs e tm tand top inner tcp nameT tob Q tcb hT hw sh hQ ha
+    hname
+  exact ⟨g,
+    fun h => g _ (fun s0 => parseInterRef_empty top tcp inner [] s0 sh.hop sh.hcp sh.hin h),
+    fun a b i h h1 h2 h3 => g _ (fun s0 => parseInterRef_wrong_order top tcp inner [] s0 sh.hop sh.hcp sh.hin a b i h
+      h1 h2 h3),
+    fun i h h1 h2 => g _ (fun s0 => parseInterRef_too_large top tcp inner [] s0 sh.hop sh.hcp sh.hin i h h1 h2),
+    fun sg i h h1 h2 => g _ (fun s0 => parseInterRef_signed top tcp inner [] s0 sh.hop sh.hcp sh.hin sg i h h1 h2),
+    fun x h h1 => g _ (fun s0 => parseInterRef_invalid top tcp inner [] s0 sh.hop sh.hcp sh.hin x h h1)⟩
 
 end Cook
